@@ -57,6 +57,7 @@ def forecasters():
     add("expsmooth", lambda: ExponentialSmoothing(), cost="slow")
     add("theta", lambda: ThetaForecaster(deseasonalize=False), refit=False, cost="slow")
     add("autoets", lambda: AutoETS(), cost="slow")
+    add("autoets_auto", lambda: AutoETS(auto=True), cost="slow", refit=False)       # model selected from the data in fit
     for strat in ("direct", "recursive", "multioutput", "dirrec"):
         mode = "opt" if strat == "recursive" else "req"
         add("reduce_" + strat, (lambda s: lambda: make_reduction(_lin(), strategy=s, window_length=2))(strat),
